@@ -39,7 +39,7 @@ theorem step_pid {s s' : St} {t t' : Thread} (hm : (s', t') ∈ step s t) : t'.p
   all_goals rfl
 
 theorem distinct_other {pre post : List Thread} {t u : Thread} (hd : distinctIds (pre ++ t :: post))
-    (hu : u ∈ pre ∨ u ∈ post) (p : Nat) (h1 : u.pid = some p) : t.pid ≠ some p := by
+    (hu : u ∈ pre ∨ u ∈ post) (p : Bool × Nat) (h1 : u.pid = some p) : t.pid ≠ some p := by
   intro h2
   unfold distinctIds at hd
   rw [List.filterMap_append, List.filterMap_cons, h2] at hd
@@ -234,7 +234,7 @@ theorem inv_init (q b : Nat) (ts : List Thread) (hi : ∀ t ∈ ts, t.initial = 
   · refine ⟨?_, ?_, ?_, ?_, ?_⟩ <;> simp [initSt, holdW, holdR]
   · refine ⟨?_, ?_, ?_, ?_, ?_⟩ <;> simp [initSt, atTop]
   · refine ⟨?_, ?_, ?_, ?_, ?_, ?_, ?_, ?_, ?_, ?_, ?_, ?_, ?_, ?_, ?_, ?_⟩ <;> simp [initSt]
-  · refine ⟨?_, ?_, ?_, ?_, ?_⟩ <;> simp [initSt]
+  · refine ⟨?_, ?_, ?_, ?_, ?_, ?_⟩ <;> simp [initSt]
   · intro u hu
     have := hi u hu
     cases u with
